@@ -153,7 +153,13 @@ fn run_script(ctx: Ctx, code: Arc<Vec<Instr>>, mut env: Env) -> BoxFuture<'stati
                     YieldOnce(false).await;
                     pc += 1;
                 }
-                Instr::Chan { .. } | Instr::Send { .. } | Instr::Closec { .. } | Instr::Recv { .. } => {
+                Instr::Trynext { s, dst } => {
+                    let st = env.streams[*s as usize].clone().expect("stream not open");
+                    let item = st.lock().unwrap().next().now_or_never();
+                    env.regs[*dst as usize] = item.flatten().unwrap_or(0);
+                    pc += 1;
+                }
+                Instr::Chan { .. } | Instr::Send { .. } | Instr::Closec { .. } | Instr::Recv { .. } | Instr::Tryrecv { .. } => {
                     panic!("channels are not part of the legacy family")
                 }
             }
